@@ -95,9 +95,12 @@ const MEDIA: [&str; 5] = [
 ];
 const QUALS: [&str; 5] = ["m", "lib", "q", "a", "mod1"];
 const HEADER_NAMES: [&str; 5] = ["ETag", "X-Id", "If-Match", "x-n", "Accept-Language"];
-const STRS: [&str; 19] = [
+const STRS: [&str; 22] = [
     "text", "yes", "no", "1e3", "~", "a: b", "- x", " lead", "trail ", "été €", "null", "true", "0x1F", "#c", "{a}", "'q'",
     "a😉b", "😉", "価格 €",
+    "A long description with accents: é è à ü — it goes on and on, well past one hundred and twenty bytes, so that anything cutting it by bytes lands inside é…",
+    "x価格価格価格価格価格価格価格価格価格価格価格価格価格価格価格価格価格価格価格価格価格価格価格価格価格価格価格価格価格価格価格価格価格価格価格価格価格価格価格価格価格",
+    "ééééééééééééééééééééééééééééééééééééééééééééééééééééééééééééa😉ééééééééééééééééééééééééééééééé",
 ];
 
 fn keyword(s: &str) -> bool {
@@ -200,7 +203,8 @@ impl<'r> Gen<'r> {
 
     fn plan(&mut self) {
         let m = self.rng.range(1, self.cfg.max_modules);
-        let all_files = ["main.oal", "a.oal", "lib/b.oal", "lib/c.oal"];
+        // two modules share the base name `a.oal` in different directories
+        let all_files = ["main.oal", "a.oal", "lib/a.oal", "lib/c.oal"];
         self.files = all_files[..m].iter().map(|s| s.to_string()).collect();
         self.imports = vec![Vec::new(); m];
         // Every module i > 0 is imported by at least one module k < i.
@@ -1232,6 +1236,19 @@ impl<'r> Gen<'r> {
             // Declarations may be used before they are defined: shuffle declarations and resources.
             self.rng.shuffle(&mut body);
             stmts.extend(body);
+            // `use` statements may stand anywhere at top level (imports are declared first regardless):
+            // in some modules they are moved down, keeping their relative order.
+            if self.rng.chance(3, 10) {
+                let uses: Vec<Stmt> = stmts.iter().filter(|s| matches!(s, Stmt::Use { .. })).cloned().collect();
+                let mut rest: Vec<Stmt> = stmts.iter().filter(|s| !matches!(s, Stmt::Use { .. })).cloned().collect();
+                let mut at = 0;
+                for u in uses {
+                    at = self.rng.range(at, rest.len());
+                    rest.insert(at, u);
+                    at += 1;
+                }
+                stmts = rest;
+            }
             modules.push(Module {
                 file: self.files[mi].clone(),
                 stmts,
